@@ -125,7 +125,13 @@ pub fn call(ev: Ev, expr: &str, ph: &Val) -> Outcome {
     // call into the next (memo keyed on the text, on ==, on a hash) then shows up as a wrong value in
     // whichever monitor is running, not only in C16's histories.
     if expr.contains('@') && crate::prng::fnv(expr.as_bytes()) % 4 == 0 {
-        let _ = call_with(ev, expr, &twin(ph), c02_budget(len), 0);
+        let t = twin(ph);
+        // a Float zero has two twins: the zero of the other sign and the Integer zero
+        let t = match (ph, crate::prng::fnv(expr.as_bytes()) % 8 < 4) {
+            (Val::NF(x), true) if *x == 0.0 => Val::NF(-*x),
+            _ => t,
+        };
+        let _ = call_with(ev, expr, &t, c02_budget(len), 0);
     }
     call_with(ev, expr, ph, c02_budget(len), 0).outcome
 }
